@@ -58,6 +58,11 @@ type UnitResult struct {
 	PanicEx    map[string]Example `json:"panic_examples,omitempty"` // by frame
 	SameEx     *Example           `json:"same_example,omitempty"`
 	Err        string             `json:"err,omitempty"`
+	// kind "ivstat": initialisation vectors of IVN consecutive messages of one sender
+	IVN        int `json:"iv_n,omitempty"`
+	IVLen      int `json:"iv_len,omitempty"`
+	IVDistinct int `json:"iv_distinct,omitempty"`
+	IVVarying  int `json:"iv_varying,omitempty"` // byte positions that take more than one value
 }
 
 // pair builds a completed key exchange through the public kex API.
@@ -136,6 +141,34 @@ func RunUnit(j UnitJob) []UnitResult {
 	a2, b2, err := pair(j.Suite, j.Cipher, int(j.Seed&3))
 	if err != nil {
 		return fail("key exchange: " + err.Error())
+	}
+	// the initialisation vectors of a run of messages under one key: all distinct, and drawn from a
+	// space that does not make repetition a matter of a few ten thousand messages (FDO: 96 bit
+	// nonce for GCM and CTR, a full block for CBC)
+	{
+		st := UnitResult{Kind: "ivstat", Suite: j.Suite, Cipher: j.Cipher, Dir: "o2d", IVN: 96}
+		seen := map[string]bool{}
+		var first []byte
+		vary := map[int]bool{}
+		for i := 0; i < st.IVN; i++ {
+			e, err := a.Encrypt(rand.Reader, payloads()["done"])
+			if err != nil {
+				return fail("encrypt: " + err.Error())
+			}
+			iv := Inspect(encode(e)).IV
+			seen[string(iv)] = true
+			if first == nil {
+				first = iv
+				st.IVLen = len(iv)
+			}
+			for k := 0; k < len(iv) && k < len(first); k++ {
+				if iv[k] != first[k] {
+					vary[k] = true
+				}
+			}
+		}
+		st.IVDistinct, st.IVVarying = len(seen), len(vary)
+		out = append(out, st)
 	}
 	sek, svk, _ := kexx.Keys(a)
 	names := []string{"done", "serviceinfo", "aligned"}
